@@ -56,3 +56,9 @@ package connectors
 //@   ghost-init g_handlerShut == 0
 //@   at-call Handler.Shutdown effect g_handlerShut == g_handlerShut + 1
 //@   ensures [handler-shut-down-when-the-session-ends] implies(isnil(result), g_handlerShut == 1)
+
+// (C18) A connection answers with the list entry it was made for (host and
+// port as given): a reconnect is made from exactly that.
+//@ func (*ServerConnection).Server
+//@   assigns nothing
+//@   ensures [the-entry-it-was-made-for] result == c.server
